@@ -357,6 +357,52 @@ def trace(run):
         run.traces_validated += 1
 
 
+CHAIN_GUARD = 60           # finding C03-F1: slices deeper than 60..170 cells (by reference form and the caller's own stack depth) are rejected from an entry point
+
+
+def chains(run):
+    """Dependency CHAINS (cell i reads cell i-1, alternately directly and through a one-cell area): the slice of the last cell is the
+    whole chain. Short chains must translate from the entry and agree with the whole-workbook translation; beyond CHAIN_GUARD the
+    rejection with the library's parser exception is the recorded finding C03-F1 (any other outcome is judged as usual)."""
+    for n in (30, 50, 120, 220, 400):
+        cells = {(0, 0): 1}
+        for i in range(1, n):
+            cells[(0, i)] = f'=A{i}+1' if i % 2 else f'=SUM(A{i}:A{i})+1'
+        excel = repo.mem_excel([('S', cells)])
+        try:
+            text, _ = repo.with_timeout(120, repo.translate_entry, excel, Cell(0, 0, n - 1))
+            members = len(MEMBER.findall(text))
+            try:
+                v = repo.fresh_executor(repo.load_class(text)).get_cell(Cell(0, 0, min(n, 150) - 1)).value
+            except RecursionError:
+                v = 'evaluation: RecursionError'
+            o, obs = 'ok', {'members': members, 'value_at_row_%d' % min(n, 150): v}
+            conforms = members == n and v == min(n, 150)
+        except BaseException as e:  # noqa
+            if isinstance(e, (KeyboardInterrupt, SystemExit)):
+                raise
+            oc = repo.outcome_of_exception(e)
+            o, obs, conforms = oc['o'], {'outcome': oc['o'], 'detail': oc.get('t', '')}, False
+        devs = ['C03-F1'] if (n >= CHAIN_GUARD and o == 'lib') else []
+        run.judge({'in': {'chain': n}, 'ideal': f'a class with {n} members', 'obs': obs, 'kind': 'chain'}, conforms, devs=devs,
+                  clause=f'chain of {n} cells translated from its last cell: {obs}', part='chains')
+        run.traces_validated += 1
+
+
+def witnesses(run):
+    for fid, f in run.open.items():
+        if fid == 'C03-F1':
+            n = f['witness']['chain']
+            cells = {(0, 0): 1}
+            for i in range(1, n):
+                cells[(0, i)] = f'=A{i}+1'
+            try:
+                repo.with_timeout(120, repo.translate_entry, repo.mem_excel([('S', cells)]), Cell(0, 0, n - 1))
+                run.witness_note(fid, False, f'a chain of {n} cells translates from its last cell')
+            except repo.E2PyclException:
+                run.witness_note(fid, True)
+
+
 def check(run):
     run.rule = ('every dependency graph on 3 nodes (and on 4 nodes: all in thorough, a seeded sample in quick) x every entry, '
                 'enumerated by TLC with closure/cyclic verdict, realised as two-sheet workbooks with rotating reference forms; '
@@ -364,12 +410,17 @@ def check(run):
     run.assumptions += ['member set is read from the generated text (one "def _s_c_r(self)" per cell)',
                         'slice values are compared with the whole-workbook translation (metamorphic oracle of the statement)']
     mc(run)
+    witnesses(run)
     gen(run)
     trace(run)
+    chains(run)
 
 
 def replay(run, case):
     global _SCRATCH
+    if case.get('kind') == 'chain':
+        chains(run)
+        return
     _SCRATCH = run.scratch
     i = case['in']
     if i.get('twin'):
